@@ -45,7 +45,7 @@ EVENT_SCHEDULES = [
     {'ping__interval': '150', 'scte35__interval': '150'},           # ~3 events per 4 s segment
     {'ping__version': '1', 'scte35__version': '1', 'ping__interval': '400'},
 ]
-STREAMS = ('bbb', 'tears', 'synirr', 'synoff', 'synnot', 'synenc')
+STREAMS = ('bbb', 'tears', 'synirr', 'synoff', 'synnot', 'synenc', 'synmk')
 
 
 def vectors(tier):
@@ -87,7 +87,7 @@ def plan(tier):
             for timeline in (None, '1'):
                 for v in vecs:
                     heavy = stream in ('bbb', 'tears')
-                    if stream not in ('bbb', 'synenc') and any(
+                    if stream not in ('bbb', 'synenc', 'synmk') and any(
                             k in v for k in ('drm', 'playready__version', 'playready__piff', 'bugs')):
                         continue    # no encrypted media: DRM vectors are vacuous there (C16 judges them)
                     if tier == 'quick' and heavy:
